@@ -5,6 +5,7 @@ import HappyProofs.C20.Reservoir
 import HappyProofs.C20.TopKMain
 import HappyProofs.C20.MerkleDiff
 import HappyProofs.C20.MerkleExt
+import HappyProofs.C20.SeqInst
 /-!
 # C20 — property theorems
 
@@ -216,6 +217,96 @@ theorem reservoir_merge (k : Nat) (hk : 0 < k) (xa xb sa sb sm : List Nat) :
       rcases mergeLoop_mem a b _ sm x (List.mem_of_mem_take hx) with h | h
       · exact List.mem_append_left _ (ia.sub x h)
       · exact List.mem_append_right _ (ib.sub x h)
+
+/-! ## sketch programs: the merge law and the one-sided bounds hold *later* too
+
+Several sketches of one kind; any interleaving of `add`, `merge` (of compatibly configured
+sketches), `clear`.  At every moment every sketch is observably the sketch of its *logical stream* —
+the adds it received, with the source's logical stream appended at each merge *as it was then*.
+What happens to a merge's inputs afterwards (more adds, `clear()`, further merges) cannot change
+the merge result.  (`logical` is the same program run on plain lists, `Seq.lean`.) -/
+
+theorem mergeIsConcat_self (o : SObs) : mergeIsConcat o o = true := by simp [mergeIsConcat]
+
+theorem cmsObs_congr (h : Nat → Nat → Nat) (a b : CMS) (probes : List Nat) (e : CMS.Eqv a b) :
+    cmsObs h a probes = cmsObs h b probes := by
+  obtain ⟨hc, hn, hw, hd, _⟩ := e
+  unfold cmsObs CMS.estimate
+  simp only [hc, hn, hw, hd]
+
+theorem bloomObs_congr (h : Nat → Nat → Nat) (a b : Bloom) (probes : List Nat) (e : Bloom.Eqv a b) :
+    bloomObs h a probes = bloomObs h b probes := by
+  obtain ⟨hb, hn, hm, hk⟩ := e
+  have hf : a.bit = b.bit := funext hb
+  unfold bloomObs Bloom.contains
+  simp only [hf, hn, hm, hk]
+
+/-- Count-Min, any program: every register reports exactly what the sketch of its logical stream
+    reports (cells, item count, estimates), hence never underestimates the logical stream -/
+theorem cms_program_registers_are_sketches (h : Nat → Nat → Nat → Nat) (w d : Nat → Nat) (n : Nat)
+    (ops : List (SeqOp Nat)) (hops : ∀ op ∈ ops, op.okFor (cmsSame h w d)) (probes : List Nat)
+    (r : Nat) (s : CMS) (xs : Stream)
+    (hs : (seqRun (cmsAlg h w d) (seqInit (cmsAlg h w d) n) ops)[r]? = some s)
+    (hxs : (logical n ops)[r]? = some xs) :
+    mergeIsConcat (cmsObs (h r) s probes) (cmsObs (h r) (CMS.ofStream (h r) (w r) (d r) xs) probes) = true
+    ∧ (0 < d r → lowerOk (cmsLower xs) probes (cmsObs (h r) s probes).q = true) := by
+  have e := seqRun_refines _ _ _ (cms_lawful h w d) n ops hops r s xs hs hxs
+  rw [cmsAlg_ofStream] at e
+  rw [cmsObs_congr (h r) s _ probes e]
+  exact ⟨mergeIsConcat_self _, fun hd => cms_never_under (h r) (w r) (d r) hd xs probes⟩
+
+/-- Bloom, any program: same bits / count / answers as the filter of the logical stream; every item
+    of the logical stream is reported present -/
+theorem bloom_program_registers_are_sketches (h : Nat → Nat → Nat → Nat) (m k : Nat → Nat) (n : Nat)
+    (ops : List (SeqOp Nat)) (hops : ∀ op ∈ ops, op.okFor (bloomSame h m k)) (probes : List Nat)
+    (r : Nat) (s : Bloom) (xs : Stream)
+    (hs : (seqRun (bloomAlg h m k) (seqInit (bloomAlg h m k) n) ops)[r]? = some s)
+    (hxs : (logical n ops)[r]? = some xs) :
+    mergeIsConcat (bloomObs (h r) s probes) (bloomObs (h r) (Bloom.ofStream (h r) (m r) (k r) xs) probes) = true
+    ∧ lowerOk (bloomLower xs) probes (bloomObs (h r) s probes).q = true := by
+  have e := seqRun_refines _ _ _ (bloom_lawful h m k) n ops hops r s xs hs hxs
+  rw [bloomAlg_ofStream] at e
+  rw [bloomObs_congr (h r) s _ probes e]
+  exact ⟨mergeIsConcat_self _, bloom_no_false_negative (h r) (m r) (k r) xs probes⟩
+
+/-- HyperLogLog, any program: registers and item count of the sketch of the logical stream -/
+theorem hll_program_registers_are_sketches (h : Nat → Nat → Nat) (p : Nat → Nat) (n : Nat)
+    (ops : List (SeqOp Nat)) (hops : ∀ op ∈ ops, op.okFor (hllSame h p))
+    (r : Nat) (s : HLL) (xs : Stream)
+    (hs : (seqRun (hllAlg h p) (seqInit (hllAlg h p) n) ops)[r]? = some s)
+    (hxs : (logical n ops)[r]? = some xs) :
+    (∀ i, s.reg i = (HLL.ofStream (h r) (p r) xs).reg i) ∧ s.n = (HLL.ofStream (h r) (p r) xs).n := by
+  have e := seqRun_refines _ _ _ (hll_lawful h p) n ops hops r s xs hs hxs
+  rw [hllAlg_ofStream] at e
+  exact ⟨e.1, e.2.1⟩
+
+/-- the frame clause the judge evaluates on snapshots (`frameOk`) is true of the model, for every
+    sketch algebra and every way `f` of printing a register: an operation changes its target only -/
+theorem sketch_program_frame {σ α : Type} (A : SeqAlg σ α) (f : σ → List String) (regs : List σ)
+    (op : SeqOp α) :
+    frameOk op.target (regs.map f) ((seqStep A regs op).map f) = true := by
+  unfold frameOk
+  simp only [List.length_map, seqStep_length, beq_self_eq_true, Bool.true_and, List.all_eq_true,
+    List.mem_range, Bool.or_eq_true, beq_iff_eq]
+  intro r _
+  by_cases ht : op.target = some r
+  · exact Or.inl ht
+  · right
+    rw [List.getElem?_map, List.getElem?_map, seqStep_frame A regs op r ht]
+
+-- merge into an empty aggregate, then clear and refill the source: the aggregate keeps the
+-- stream it was given at merge time
+example :
+    let h : Nat → Nat → Nat → Nat := fun _ x r => (x * (r + 1)) % 3
+    let ops : List (SeqOp Nat) := [.add 1 4 2, .merge 0 1, .clear 1, .add 1 2 1, .add 0 5 1]
+    (logical 2 ops = [[(4, 2), (5, 1)], [(2, 1)]])
+    ∧ ((seqRun (cmsAlg h (fun _ => 3) (fun _ => 2)) (seqInit (cmsAlg h (fun _ => 3) (fun _ => 2)) 2) ops).map
+        (fun s => (s.n, s.estimate (h 0) 4)) = [(3, 2), (1, 0)]) := by decide
+example : ∀ op ∈ ([.add 1 4 2, .merge 0 1, .clear 1] : List (SeqOp Nat)),
+    op.okFor (cmsSame (fun _ x r => (x * (r + 1)) % 3) (fun _ => 3) (fun _ => 2)) := by
+  intro op hop
+  simp only [List.mem_cons, List.not_mem_nil, or_false] at hop
+  rcases hop with rfl | rfl | rfl <;> simp [SeqOp.okFor, cmsSame]
 
 /-! ## Merkle -/
 
